@@ -583,11 +583,9 @@ func (env *SpecEnv) call(n *ast.CallExpr) Value {
 		save := env.inOld
 		env.inOld = true
 		v := env.eval(args[0])
-		// force loads in the old state
+		// force loads in the old state (whole objects are loaded as aggregate values)
 		if rv, ok := v.(*RefVal); ok {
-			if isScalarType(rv.typ) {
-				v = env.loadRef(rv)
-			}
+			v = env.loadRef(rv)
 		}
 		env.inOld = save
 		return v
@@ -655,6 +653,9 @@ func (env *SpecEnv) call(n *ast.CallExpr) Value {
 	case "os2ip":
 		need(1)
 		return os2ipTerms(env.elemsOf(env.eval(args[0]), args[0]))
+	case "os2ipv":
+		need(1)
+		return env.os2ipv(env.sliceOf(env.eval(args[0]), args[0]))
 	case "fp":
 		need(1)
 		return mkToRing(SFp, env.term(args[0]))
@@ -892,7 +893,38 @@ func (env *SpecEnv) pointCoords(x ast.Expr) (*Term, *Term, *Term) {
 	return get("x"), get("y"), get("z")
 }
 
+// bip66: the BIP-66 grammar as a predicate over a byte slice (written from the BIP text).
+func (env *SpecEnv) bip66(x ast.Expr) *Term {
+	s := env.sliceOf(env.eval(x), x)
+	n := s.length
+	at := func(i *Term) *Term { return substitute(env.e.sliceElem(env.state(), s, i), env.state().subst) }
+	c := func(v int64) *Term { return mkInt64(v) }
+	lenR := at(c(3))
+	// everything that indexes is guarded by the preceding length facts (short-circuit conjunction)
+	sizeOK := mkAnd(mkLe(c(9), n), mkLe(n, c(73)))
+	guard1 := mkAnd(sizeOK, mkLt(mkAdd(c(5), lenR), n))
+	lenS := at(mkAdd(c(5), lenR))
+	minimal := func(off, l *Term) *Term {
+		first := at(off)
+		second := at(mkAdd(off, c(1)))
+		return mkAnd(mkLt(first, c(128)), mkNot(mkAnd(mkLt(c(1), l), mkEq(first, c(0)), mkLt(second, c(128)))))
+	}
+	body := mkAnd(
+		mkEq(at(c(0)), c(0x30)),
+		mkEq(at(c(1)), mkSub(n, c(3))),
+		mkEq(at(c(2)), c(2)),
+		mkLe(c(1), lenR),
+		mkEq(at(mkAdd(c(4), lenR)), c(2)),
+		mkLe(c(1), lenS),
+		mkEq(mkAdd(mkAdd(lenR, lenS), c(7)), n),
+		minimal(c(4), lenR),
+		minimal(mkAdd(c(6), lenR), lenS),
+	)
+	return mkAnd(guard1, body)
+}
+
 func init() {
+	specFuncs["bip66"] = func(env *SpecEnv, n *ast.CallExpr) Value { return env.bip66(n.Args[0]) }
 	// abs(p): abstract point represented by a *Point (or affinePoint with z = 1)
 	specFuncs["abs"] = func(env *SpecEnv, n *ast.CallExpr) Value {
 		x, y, z := env.pointCoords(n.Args[0])
